@@ -72,3 +72,11 @@ Definition whole_array_usage (es : list event) : N :=
 (* arrays delivered in pieces: chunk headers and chunk data *)
 Definition is_chunk_event (e : event) : bool := match e with EArrayChunk _ _ | EArrayData _ => true | _ => false end.
 Definition no_chunks (es : list event) : bool := forallb (fun e => negb (is_chunk_event e)) es.
+
+(* the usage of an event list is within the limits of a configuration *)
+Definition within_limits (cfg : rcfg) (es : list event) : Prop :=
+  object_usage es <= max_object_count cfg /\
+  depth_usage es <= max_container_depth cfg /\
+  length_ok cfg (whole_array_usage es) = true /\
+  ident_usage es <= max_identifier_length cfg /\
+  marker_usage es <= max_local_reference_count cfg.
